@@ -8,5 +8,7 @@ CONSTANTS
   ZeroFix = TRUE
   OffsetErrFix = TRUE
   LateNotice = FALSE
+  Twin = FALSE
+  PathLockFix = TRUE
 INVARIANT TypeOK
 CHECK_DEADLOCK FALSE
